@@ -24,8 +24,15 @@ def gen_params(sc, **kw):
 
 def files(sc, extra=(), **params):
     fs = [os.path.join(HDIR, f) for f in sorted(os.listdir(HDIR)) if f.startswith('zz_verif_') and f.endswith('.go') and not f.endswith('_test.go')]
-    fs.append(gen_params(sc, **params))
+    defaults = dict(lrK=6, lrEvalK=6, lrFailK=5, lrTreeK=6)
+    defaults.update(params)
+    fs.append(gen_params(sc, **defaults))
     fs.extend(extra)
+    if not any(os.path.basename(f) == 'zz_verif_c04_ref.go' for f in extra):
+        stub = sc.path('zz_verif_c04_ref.go')
+        with open(stub, 'w') as f:
+            f.write('//go:build verif\n\npackage parser\n\nconst refMaxState = 0\n\nfunc refACTION(s int, a string) (int, int) { return 0, -1 }\nfunc refGOTO(s int, A string) int { return -1 }\n')
+        fs.append(stub)
     return fs
 
 
@@ -57,3 +64,42 @@ def handle(rep, res, fs, sc, prop, max_replays=8, tagmap=None):
             rep.known_finding('%s %s' % (kf[0], known[kf[0]]['what']))
         else:
             rep.violation(what, {'harness': v['harness'], 'pkg': PKG_REL, 'inputs': v['inputs'], 'msg': v['msg'], 'native': outcome})
+
+
+AST_REL = 'internal/ebnf/parser/ast'
+AST_PKG = MODULE + '/' + AST_REL
+AST_HDIR = os.path.join(HARNESS, AST_REL)
+
+
+def ast_files(sc, **params):
+    """Harness files for the ast package plus the overlay entries its dependency (parser) needs."""
+    pfs = files(sc, **{k: v for k, v in params.items() if k.startswith('lr')})
+    extra = {os.path.join(REPO, PKG_REL, os.path.basename(f)): f for f in pfs}
+    # present parser.go with New renamed, and define New as the stub-aware constructor
+    import re
+    src = open(os.path.join(REPO, PKG_REL, 'parser.go')).read()
+    patched, n = re.subn(r'\nfunc New\(filename string, src io\.Reader\) \(\*Parser, error\) \{', '\nfunc verifOrigNew(filename string, src io.Reader) (*Parser, error) {', src)
+    if n != 1:
+        raise RuntimeError('cannot locate parser.New in the current tree')
+    pp = sc.path('parser_patched.go')
+    with open(pp, 'w') as f:
+        f.write(patched)
+    extra[os.path.join(REPO, PKG_REL, 'parser.go')] = pp
+    nn = sc.path('zz_verif_new.go')
+    with open(nn, 'w') as f:
+        f.write('//go:build verif\n\npackage parser\n\nimport "io"\n\n// New is the stub-aware constructor in harness builds of the typed-tree package.\nfunc New(filename string, src io.Reader) (*Parser, error) { return VerifNew(filename, src) }\n\nvar _ = verifOrigNew\n')
+    extra[os.path.join(REPO, PKG_REL, 'zz_verif_new.go')] = nn
+    path = sc.path('zz_verif_ast_params.go')
+    with open(path, 'w') as f:
+        f.write('//go:build verif\n\npackage ast\n\nconst astK = %d\n' % params.get('astK', 6))
+    afs = [os.path.join(AST_HDIR, f) for f in sorted(os.listdir(AST_HDIR)) if f.startswith('zz_verif_') and f.endswith('.go') and not f.endswith('_test.go')]
+    afs.append(path)
+    return afs, extra
+
+
+def ast_cfg(afs, extra, entry, tier, **kw):
+    c = {'patterns': ['./' + AST_REL], 'pkg': AST_PKG, 'overlay': overlay_map(AST_REL, afs, extra), 'init_pkgs': INIT + [AST_PKG], 'entry': entry,
+         'opaque': OPAQUE,
+         'cross': ['cvc5', 'z3'] if tier == 'thorough' else [], 'max_violations': 40}
+    c.update(kw)
+    return c
